@@ -1456,7 +1456,9 @@ func cmdC19FreeChild(args []string) {
 		var mu sync.Mutex
 		var evs []vhook.Event
 		vhook.SetSink(func(e vhook.Event) {
-			if e.Comp == "session" {
+			// the connection pool's events only: the service list has its own specification
+			// (SessionList.tla, c19list.go) and its own events
+			if e.Comp == "session" && !c19ListEvent[e.Ev] {
 				mu.Lock()
 				evs = append(evs, e)
 				mu.Unlock()
@@ -1637,3 +1639,7 @@ func cmdC19FreeChild(args []string) {
 	out.End()
 	w.close()
 }
+
+// events of bus/session/session.go that belong to the service list (SessionList.tla), not to the pool
+var c19ListEvent = map[string]bool{"find": true, "findid": true, "listed": true, "subscribed": true, "signal": true,
+	"store": true, "refresh_failed": true, "loop_exit": true, "cancelled": true, "terminated": true}
